@@ -683,6 +683,7 @@ func checkDoc(layer string, doc []byte, st *stats) (verdict string) {
 	c := conf.New()
 	var err error
 	var mm *mismatch
+	retried := false
 	stage := "InitFromBytes"
 	pan := func() (p string) {
 		defer func() {
@@ -691,10 +692,42 @@ func checkDoc(layer string, doc []byte, st *stats) (verdict string) {
 			}
 		}()
 		st.observations++
-		err = c.InitFromBytes(doc)
+		buf := append([]byte{}, doc...) // the caller's buffer
+		err = c.InitFromBytes(buf)
 		stage = "getters"
 		if err != nil {
-			return ""
+			// the same object asked again with the same bytes: still an error (or the whole document)
+			stage = "InitFromBytes-again"
+			st.observations++
+			if err2 := c.InitFromBytes(buf); err2 == nil {
+				retried = true
+				err = nil
+			} else {
+				return ""
+			}
+			stage = "getters"
+		}
+		if ref.malformed == "" && !retried && len(buf) >= len(reuseDoc) {
+			defer func() {
+				// the caller refills its buffer with another document and parses again on the same object
+				if x := recover(); x != nil {
+					p = fmt.Sprint(x) // (what the recover below would have done)
+					return
+				}
+				if mm != nil || p != "" {
+					return
+				}
+				for i := range buf {
+					buf[i] = '\n'
+				}
+				copy(buf, reuseDoc)
+				st.observations++
+				if e := c.InitFromBytes(buf); e != nil {
+					mm = &mismatch{"reparse-from-reused-buffer", fmt.Sprintf("second InitFromBytes on the same object, from the caller's refilled buffer %q: %v", clip(string(buf)), e)}
+				} else if v := c.GetString("/zz9<qq9>"); v != "1" {
+					mm = &mismatch{"reparse-from-reused-buffer", fmt.Sprintf("second InitFromBytes on the same object, from the caller's refilled buffer %q, returned nil but /zz9<qq9> = %q", clip(string(buf)), v)}
+				}
+			}()
 		}
 		if ref.malformed == "" {
 			mm = compareTree(c, ref.root, nil, &st.observations)
@@ -761,6 +794,9 @@ func checkDoc(layer string, doc []byte, st *stats) (verdict string) {
 		return "error-on-wellformed"
 	case err != nil:
 		return "malformed-rejected"
+	case mm != nil && ref.malformed != "" && retried:
+		violation("silent-partial-on-retry:"+ref.malformed, fmt.Sprintf("InitFromBytes(%q) returned an error, the same call repeated on the same object returned nil: %s", clip(string(doc)), mm.detail), layer, doc)
+		return "silent-partial"
 	case mm != nil && ref.malformed != "":
 		violation("silent-partial:"+ref.malformed, fmt.Sprintf("InitFromBytes(%q): %s", clip(string(doc)), mm.detail), layer, doc)
 		return "silent-partial"
@@ -781,6 +817,9 @@ func checkDoc(layer string, doc []byte, st *stats) (verdict string) {
 	}
 	return "exact"
 }
+
+// reuseDoc is what the caller writes into its buffer for the second parse on the same object.
+var reuseDoc = []byte("<zz9>\nqq9=1\n</zz9>\n")
 
 // ---------------------------------------------------------------- enumeration
 
